@@ -13,7 +13,7 @@ VERIF = os.path.dirname(os.path.dirname(os.path.abspath(__file__)))
 class FuncDesc:
     def __init__(self, key, src, name, sig, cls=None, cls_ordinal=0, ordinal=0, ret='void', ret_base=None, ret_ref=False,
                  params=None, bases=None, static=False, typemap=None, consts=None, lambdas=None, env=None, base_alias=None,
-                 must_fire=(), family=None, typenames=(), templates=(), self_cls=None, ctor_init=None, selfname='self', as_base=False, lead_base=(), targs_as_args=False, call_base=None, params_complete=False):
+                 must_fire=(), family=None, typenames=(), templates=(), self_cls=None, ctor_init=None, selfname='self', as_base=False, lead_base=(), targs_as_args=False, call_base=None, params_complete=False, template=None):
         self.key, self.src, self.name, self.sig = key, src, name, sig
         self.cls, self.cls_ordinal, self.ordinal = cls, cls_ordinal, ordinal
         self.ret, self.ret_base, self.ret_ref = ret, ret_base, ret_ref
@@ -37,6 +37,7 @@ class FuncDesc:
         self.targs_as_args = targs_as_args
         self.call_base = call_base
         self.params_complete = params_complete
+        self.template = template
 
 
 class ClassDesc:
@@ -122,6 +123,7 @@ class UnitBuilder:
                 methods[m] = FuncInfo(fd.key, fd.ret, getattr(fd, 'call_base', None) or fd.ret_base, fd.static, ref=fd.ret_ref, as_base=getattr(fd, 'as_base', False), lead_base=getattr(fd, 'lead_base', ()),
                                       params=list(fd.params.values()) if getattr(fd, 'params_complete', False) else None)
                 methods[m].targs_as_args = getattr(fd, 'targs_as_args', False)
+                methods[m].template = getattr(fd, 'template', None)
             consts.update(self.consts.get(cls, {}))
             consts.update(fam.classes[cls].consts)
         sm = dict(fam.struct_methods)
